@@ -20,9 +20,21 @@ func vhOpArg(sel int) Operator {
 		return vhUserOp{"~=", "approx"}
 	case 3:
 		return vhUserOp{"", "approx"}
+	case 5:
+		return vhSliceOp{"~=", "approx"}
+	case 6:
+		return vhSliceOp{"=~", "approx", "spare"}
+	case 7:
+		return &vhUserOp{"->", "arrow"}
 	}
 	return vhUserOp{"~=", ""}
 }
+
+// vhSliceOp is a user-defined operator of an uncomparable type.
+type vhSliceOp []string
+
+func (o vhSliceOp) String() string  { return o[0] }
+func (o vhSliceOp) Context() string { return o[1] }
 
 func vhOpAcceptable(op Operator) bool {
 	if op == nil {
@@ -51,6 +63,12 @@ func vhExArg(sel int) any {
 		return vhStringer{"strd"}
 	case 8:
 		return And()
+	case 9: // an invalid Condition is still an expression; it renders as nothing
+		return Cond("in", nil, "ner")
+	case 10:
+		return vhAliasCond(Cond("in", ComparisonOperator(9), "ner"))
+	case 11:
+		return vhAliasCond(Cond("in", Lt, "ner"))
 	}
 	return true
 }
@@ -71,6 +89,13 @@ func vhExAcceptable(ex any, noNest, hasErr bool) bool {
 func vhSameOp(a, b Operator) bool {
 	if a == nil || b == nil {
 		return a == nil && b == nil
+	}
+	if x, ok := a.(vhSliceOp); ok {
+		y, ok2 := b.(vhSliceOp)
+		return ok2 && len(x) == len(y) && &x[0] == &y[0]
+	}
+	if _, ok := b.(vhSliceOp); ok {
+		return false
 	}
 	return a == b
 }
@@ -110,6 +135,8 @@ func vhExText(ex any) string {
 		return x.String()
 	case Condition:
 		return x.String()
+	case vhAliasCond:
+		return Condition(x).String()
 	}
 	return "?"
 }
@@ -166,7 +193,7 @@ func VH_C06_Step(p []int) {
 	if nondetChoice(2) == 1 {
 		m.kw = "kw"
 	}
-	switch nondetChoice(6) { // nil, built-in (valid and invalid codes), user operator
+	switch nondetChoice(7) { // nil, built-in (valid and invalid codes), user operator
 	case 1:
 		m.op = Eq
 	case 2:
@@ -177,8 +204,10 @@ func VH_C06_Step(p []int) {
 		m.op = ComparisonOperator(7)
 	case 5:
 		m.op = vhUserOp{"~=", "approx"}
+	case 6:
+		m.op = vhSliceOp{"<>", "approx"}
 	}
-	m.ex = vhExArg([]int{0, 1, 3, 4, 5, 6, 8}[nondetChoice(7)])
+	m.ex = vhExArg([]int{0, 1, 3, 4, 5, 6, 8, 9, 11}[nondetChoice(9)])
 	c.condition.kw, c.condition.op, c.condition.ex = m.kw, m.op, m.ex
 	hasErr := nondetChoice(2) == 1
 	if hasErr {
@@ -202,13 +231,13 @@ func VH_C06_Step(p []int) {
 			c.SetKeyword(17) // neither text nor stringer: ignored
 		}
 	case 1:
-		op := vhOpArg(nondetChoice(5))
+		op := vhOpArg(nondetChoice(8))
 		c.SetOperator(op)
 		if vhOpAcceptable(op) {
 			m.op = op
 		}
 	case 2:
-		ex := vhExArg(nondetChoice(9))
+		ex := vhExArg(nondetChoice(12))
 		c.SetExpression(ex)
 		if vhExAcceptable(ex, noNest, hasErr) {
 			m.ex = ex
@@ -228,8 +257,8 @@ func VH_C06_Hist(p []int) {
 		if nondetChoice(2) == 1 {
 			kw = "kw"
 		}
-		op := vhOpArg(nondetChoice(5))
-		ex := vhExArg(nondetChoice(9))
+		op := vhOpArg(nondetChoice(8))
+		ex := vhExArg(nondetChoice(12))
 		c = Cond(kw, op, ex)
 		m.kw = kw
 		if vhOpAcceptable(op) {
@@ -260,13 +289,13 @@ func VH_C06_Hist(p []int) {
 				m.kw = ""
 			}
 		case 1:
-			op := vhOpArg(nondetChoice(5))
+			op := vhOpArg(nondetChoice(8))
 			c.SetOperator(op)
 			if vhOpAcceptable(op) {
 				m.op = op
 			}
 		case 2:
-			ex := vhExArg(nondetChoice(9))
+			ex := vhExArg(nondetChoice(12))
 			c.SetExpression(ex)
 			if vhExAcceptable(ex, noNest, false) {
 				m.ex = ex
